@@ -26,9 +26,9 @@ import (
 	"runtime/debug"
 	"sort"
 	"strings"
+	"sync/atomic"
 
 	"github.com/krotik/ecal/engine"
-	"github.com/krotik/ecal/interpreter"
 
 	"verif/harness/core"
 )
@@ -249,12 +249,12 @@ func Run(c *core.Ctx) {
 		"(b) every entry of interpreter.InbuildFuncMap plus log/error/debug x all argument vectors of length 0..3 (exhaustive) and random vectors of length 4, bare, inside try/except and as a sink body (sleep/setPulseTrigger/setCronTrigger: numeric first arguments mapped to <=1000 microseconds / a never-firing cron spec); "+
 		"(c) sink attributes kindmatch/scopematch/statematch/priority/suppresses with every universe value (plain, list-wrapped, map-wrapped), duplicates, missing attributes, then events; "+
 		"(d) statematch value x event state value over the universe squared, events sent by addEvent, addEventAndWait and by engine.NewEvent+Processor.AddEventAndWait, on 1 and 4 workers; "+
-		"(d2) failing sink bodies (raise with 0..3 universe arguments, operator errors, return/break/continue, imports, paths into the event) whose errors come back through addEventAndWait/addEvent; (e) access paths: 7 containers x read/write forms x 26 index values (universe + fractional/negative/huge/string indices). "+
+		"(d2) failing sink bodies (raise with 0..3 universe arguments, operator errors, return/break/continue, imports, paths into the event) whose errors come back through addEventAndWait/addEvent; (e) access paths: 7 containers x read/write forms x 26 index values (universe + fractional/negative/huge/string indices); "+
+		"(f) three programs that build a list / map / event state containing itself and then print or match it (a fatal stack overflow there is the death of the child, classified by the driver). "+
 		"Non-trivial = distinct source texts whose real execution took a failure path (error value returned, error caught by except, sink invocation failed) or that went through the pool. "+
 		"Excluded: user-written non-termination, interpolation edge cases (C14), whether except sees return/break/iterator signals (C04).")
 	names := builtinNames()
-	c.Event("builtins.enumerated", int64(len(names)))
-	_ = interpreter.InbuildFuncMap
+	c.Note("builtins", strings.Join(names, ","))
 	// VH_C06_STREAMS=name,name restricts the run to some stream families (a
 	// debugging aid; no registered command sets it)
 	filter := os.Getenv("VH_C06_STREAMS")
@@ -273,7 +273,7 @@ func Run(c *core.Ctx) {
 	run("sinkfail", h.streamSinkFail)
 	run("builtins", func() { h.streamBuiltins(names) })
 	run("random", h.streamRandom)
-	if n := nudges; n > 0 {
+	if n := atomic.LoadInt64(&nudges); n > 0 {
 		c.Event("harness.nudges", n)
 	}
 }
